@@ -354,12 +354,13 @@ class Ctx:
         d = os.path.join(BUILD, 'cases', f'{self.prop}-{os.getpid()}')
         os.makedirs(d, exist_ok=True)
         # dependencies must be compiled
-        with _coq_lock():
-            _coq_makefile()
-            deps = [m.replace('.', '/') + '.vo' for m in requires]
-            r = _run(['make', '-C', COQ, '-j', str(_jobs())] + deps, timeout=1500)
-            if r.returncode != 0:
-                raise RuntimeError('model does not compile:\n' + _tail(r.stdout + r.stderr, 30))
+        deps = [m.replace('.', '/') + '.vo' for m in requires]
+        if not _up_to_date(deps):
+            with _coq_lock():
+                _coq_makefile()
+                r = _run(['make', '-C', COQ, '-j', str(_jobs())] + deps, timeout=1500)
+                if r.returncode != 0:
+                    raise RuntimeError('model does not compile:\n' + _tail(r.stdout + r.stderr, 30))
         head = ('From Coq Require Import ZArith List Bool String Ascii.\n'
                 + ''.join(f'From BV Require Import {m}.\n' for m in requires)
                 + 'Import ListNotations.\nOpen Scope Z_scope.\n'
@@ -451,6 +452,16 @@ def _coq_makefile():
             raise RuntimeError('coq_makefile failed: ' + r.stderr)
         with open(stamp, 'w') as f:
             f.write(text)
+
+
+def _up_to_date(targets) -> bool:
+    """True when `make -q` says the targets need no rebuild (checked without taking the build lock)."""
+    if not os.path.exists(os.path.join(COQ, 'Makefile')) or not os.path.exists(os.path.join(COQ, '.files')):
+        return False
+    if open(os.path.join(COQ, '.files')).read() != '\n'.join(coq_sources()):
+        return False
+    r = _run(['make', '-C', COQ, '-q'] + list(targets), timeout=300)
+    return r.returncode == 0
 
 
 def _prop_deps(prop_files):
